@@ -127,7 +127,15 @@ def c08_extra(pid, tier, seed):
             spaths.append(p)
         with cf.ThreadPoolExecutor(4) as ex:
             list(ex.map(one, spaths))
-        paths = paths + spaths
+        # readers against GC (lazy load of a segment by several readers at once, unload under them)
+        gpaths = []
+        for i in range(2):
+            p = os.path.join(d, 'g%02d.txt' % i)
+            open(p, 'w').write('cgcstress %d %d\n' % ((6, 250) if tier == 'quick' else (60, 400)))
+            gpaths.append(p)
+        with cf.ThreadPoolExecutor(2) as ex:
+            list(ex.map(one, gpaths))
+        paths = paths + spaths + gpaths
         # the protocol model on the same placements
         mp = os.path.join(d, 'model-placements.txt')
         open(mp, 'w').write('\n'.join(mlines) + '\n')
